@@ -208,7 +208,9 @@ impl SimPool {
     pub fn next_block_assembler(&mut self) -> Option<BoxFut<()>> {
         let m = self.ba_receiver.try_recv().ok()?;
         let s = self.service.clone();
-        Some(Box::pin(async move { block_assembler::process(s, &m).await }))
+        Some(Box::pin(
+            async move { block_assembler::process(s, &m).await },
+        ))
     }
 
     /// One iteration of a verify worker: pop the next queued transaction, verify and submit it.
